@@ -140,3 +140,49 @@ def shared_binder_feature(t):
                 walk(v)
     walk(t)
     return found[0]
+
+
+def nested_same_binder_feature(t):
+    """True iff a reduction / contraction binds a name that a reduction / contraction nested
+    INSIDE it binds again (shadowing): (sum_k y[k]) * x[i,k] summed over k"""
+    def bound(x):
+        if x.get("c") == "Red" or (x.get("c") == "Con" and x.get("vars")):
+            return {n for n, _ in x["vars"]}
+        return set()
+
+    def walk(x, outer):
+        if isinstance(x, dict):
+            here = bound(x) if "c" in x else set()
+            if here & outer:
+                return True
+            return any(walk(v, outer | here) for v in x.values())
+        if isinstance(x, list):
+            return any(walk(v, outer) for v in x)
+        return False
+    return walk(t, set())
+
+
+def identity_subs_feature(t):
+    """True iff some substitution maps an input to the variable of the same name (f(k='k'))"""
+    if isinstance(t, dict):
+        if t.get("c") == "Sub" and any(v.get("c") == "Var" and v.get("name") == k for k, v in t["subs"]):
+            return True
+        return any(identity_subs_feature(v) for v in t.values())
+    if isinstance(t, list):
+        return any(identity_subs_feature(v) for v in t)
+    return False
+
+
+def rename_onto_input_feature(t):
+    """True iff a substitution renames an input of a tensor leaf onto a variable that is itself
+    an (unsubstituted) input of that leaf: x(i='k') on x[i, k] - the diagonal"""
+    if isinstance(t, dict):
+        if t.get("c") == "Sub" and isinstance(t.get("arg"), dict) and t["arg"].get("c") == "Ten":
+            keys = {k for k, _ in t["subs"]}
+            kept = {n for n, _ in t["arg"]["ins"]} - keys
+            if any(v.get("c") == "Var" and v.get("name") in kept for _, v in t["subs"]):
+                return True
+        return any(rename_onto_input_feature(v) for v in t.values())
+    if isinstance(t, list):
+        return any(rename_onto_input_feature(v) for v in t)
+    return False
